@@ -99,8 +99,9 @@ func BoltFrames(v2 bool) []Frame {
 
 // hessian2 short strings (length 0..31: one length byte + bytes), maps 'H' … 'Z', null 'N'
 type hb struct {
-	b    []byte
-	lens []int
+	b      []byte
+	lens   []int
+	counts []int // offsets of 4-byte element counts
 }
 
 func (h *hb) str(s string) *hb {
@@ -110,6 +111,17 @@ func (h *hb) str(s string) *hb {
 	return h
 }
 func (h *hb) raw(b ...byte) *hb { h.b = append(h.b, b...); return h }
+
+// fixedList: hessian2 fixed-length untyped list, x58 + length as 'I' b3 b2 b1 b0 + the elements (compact ints 1..n)
+func (h *hb) fixedList(n int) *hb {
+	h.b = append(h.b, 0x58, 'I')
+	h.counts = append(h.counts, len(h.b))
+	h.b = append(h.b, 0, 0, 0, byte(n))
+	for i := 1; i <= n; i++ {
+		h.b = append(h.b, 0x90+byte(i))
+	}
+	return h
+}
 
 func dubboFrame(name string, flag, status byte, id uint64, payload *hb) Frame {
 	b := []byte{0xda, 0xbb, flag, status}
@@ -123,23 +135,33 @@ func dubboFrame(name string, flag, status byte, id uint64, payload *hb) Frame {
 	for i, o := range payload.lens {
 		f.Fields = append(f.Fields, Field{Name: fmt.Sprintf("hessianStrLen[%d]", i), Off: 16 + o, Width: 1})
 	}
+	for i, o := range payload.counts {
+		// (not a Field: 65535 announced elements are exactly the 1 MiB the allocation oracle tolerates)
+		f.Counts = append(f.Counts, Field{Name: fmt.Sprintf("hessianListLen[%d]", i), Off: 16 + o, Width: 4})
+	}
 	f.Blocks = []Block{{Name: "payload", End: len(b), Lens: []int{0}}}
 	// flag = request|twoway|event bits + serialization id: selects heartbeat / request (payload parsed) / response
 	f.Selectors = []Selector{{Name: "flag", Off: 2}, {Name: "status", Off: 3}}
 	return f
 }
 
+func quickBytes(f Frame) Frame { f.QuickBytesOnly = true; return f }
+
 func DubboFrames() []Frame {
 	small := func() *hb { return (&hb{}).str("2.0.2").str("com.x.Svc").str("1.0").str("m").str("").raw('N') }
 	full := (&hb{}).str("2.0.2").str("com.x.Svc").str("1.0").str("hello").str("Ljava/lang/String;I").str("arg").raw(0x91).
 		raw('H').str("path").str("com.x.Svc").str("interface").str("com.x.Svc").str("group").str("g").raw('Z')
 	resp := (&hb{}).raw(0x91).str("ok")
+	// an argument that is a fixed-length list: the service-aware listeners (ingress_dubbo / egress_dubbo) decode the arguments
+	list := (&hb{}).str("2.0.2").str("com.x.Svc").str("1.0").str("sum").str("Ljava/util/List;").fixedList(2).
+		raw('H').str("path").str("com.x.Svc").raw('Z')
 	return []Frame{
 		dubboFrame("small request", 0xC2, 0, 1, small()),
 		dubboFrame("request with attachments", 0xC2, 0, 0x0102030405060708, full),
 		dubboFrame("response", 0x02, 20, 0x0102030405060708, resp),
 		dubboFrame("heartbeat", 0xE2, 0, 5, (&hb{}).raw('N')),
 		dubboFrame("one-way", 0x82, 0, 9, small()),
+		quickBytes(dubboFrame("request with a fixed-length list argument", 0xC2, 0, 11, list)),
 	}
 }
 
@@ -228,12 +250,15 @@ func tarsOne(b []byte, off int, f *Frame, path string) (next int, end bool) {
 		f.Blocks = append(f.Blocks, Block{Name: nm + ":string4", End: off, Lens: []int{0, len(f.Fields) - 1}})
 	case 8, 9: // map, list: size as an int field with tag 0, then 2*size / size elements
 		n, o2, si := tarsInt(b, off, f, nm+":size")
+		if si >= 0 && f.Fields[si].Width == 4 {
+			f.Counts = append(f.Counts, f.Fields[si])
+		}
 		if si >= 0 {
 			// the container's head. (NOT the head of its size INT: re-typing a 1-byte size as a 4-byte INT makes the
-			// following bytes part of the count, and TarsGo's generated ReadFrom then iterates up to 2^31 times over
-			// non-required reads that silently do nothing at the end of the data - ~1 s per 2^25 announced entries,
-			// returning a frame. Hundreds of such inputs would take the check minutes without any of them being a
-			// verdict of this oracle (the calls do return); see findings/C08.md "O1".)
+			// following bytes part of the count; on a tree without tars/decoder.go's checkMapLen TarsGo's generated
+			// ReadFrom then iterates that count over reads that do nothing - hundreds of such inputs at up to 0.45 s
+			// of CPU x 3 executions would cost a regressed tree minutes. The class announced-count and the cost oracle
+			// of run.go guard that defect at a bounded price; see findings/C08.md F5.)
 			f.Selectors = append(f.Selectors, Selector{Name: nm + ":head", Off: headOff, Lens: []int{0, si}})
 		}
 		off = o2
@@ -251,6 +276,9 @@ func tarsOne(b []byte, off int, f *Frame, path string) (next int, end bool) {
 	case 13: // simple list: head byte (type byte), size int, bytes
 		off++
 		n, o2, li := tarsInt(b, off, f, nm+":bytesLen")
+		if li >= 0 && f.Fields[li].Width == 4 {
+			f.Counts = append(f.Counts, f.Fields[li])
+		}
 		if li >= 0 {
 			// SIMPLE_LIST head, element-type byte, head of the length INT
 			f.Selectors = append(f.Selectors, Selector{Name: nm + ":head", Off: headOff, Lens: []int{0, li}}, Selector{Name: nm + ":elemType", Off: off - 1, Lens: []int{0, li}},
@@ -358,6 +386,18 @@ func tarsVector(body []byte, tag byte, asList bool, width int) []byte {
 	return append(out, body[i+4+n:]...)
 }
 
+// tarsWideMap re-encodes the size of the map field `tag` (1 entry, written by TarsGo as a tag-0 BYTE) as
+// a 4-byte INT - legal tars, accepted by TarsGo's reader.
+func tarsWideMap(body []byte, tag byte) []byte {
+	i := bytes.Index(body, []byte{tag<<4 | 0x08, 0x00, 0x01})
+	if i < 0 {
+		panic("c08: canonical one-entry map not found")
+	}
+	out := append([]byte(nil), body[:i]...)
+	out = append(out, tag<<4|0x08, 0x02, 0, 0, 0, 1)
+	return append(out, body[i+3:]...)
+}
+
 func TarsFrames() []Frame {
 	long := strings.Repeat("v", 260) // forces a STRING4
 	return []Frame{
@@ -373,6 +413,12 @@ func TarsFrames() []Frame {
 			SServantName: "App.Svc.Obj", SFuncName: "hello", SBuffer: []int8{1, 2, 3, 4, 5}, ITimeout: 3000}), 7, false)),
 		tarsAnnotate("response, body as SIMPLE_LIST with 4-byte length", tarsWideVector(tarsBody(&requestf.ResponsePacket{IVersion: 1, IRequestId: 7, SBuffer: []int8{9, 8, 7},
 			SResultDesc: "ok"}), 6, false)),
+		// map sizes as 4-byte INT (context tag 9 / status tag 10 of a request, status tag 7 / context tag 9 of a
+		// response): the generated ReadFrom loops the announced size (tars/decoder.go checkMapLen guards it)
+		tarsAnnotate("request, context and status map sizes as 4-byte INT", tarsWideMap(tarsWideMap(tarsBody(&requestf.RequestPacket{IVersion: 1, IRequestId: 13,
+			SServantName: "App.Svc.Obj", SFuncName: "hello", SBuffer: []int8{1, 2}, Context: map[string]string{"k": "v"}, Status: map[string]string{"s": "t"}}), 9), 10)),
+		tarsAnnotate("response, status and context map sizes as 4-byte INT", tarsWideMap(tarsWideMap(tarsBody(&requestf.ResponsePacket{IVersion: 1, IRequestId: 14, SBuffer: []int8{9},
+			SResultDesc: "ok", Status: map[string]string{"s": "t"}, Context: map[string]string{"k": "v"}}), 7), 9)),
 		// the remaining combinations of {request, response} x {SIMPLE_LIST, LIST} x {SHORT, INT length}: the guard in
 		// tars/decoder.go (checkVectorLen) branches on the direction (tag 7 / tag 6), the vector form and reads the
 		// length through the width-selecting INT head
@@ -471,15 +517,15 @@ func DubboGrid(target string, yield func(Case) bool) bool {
 }
 
 // TarsAbsurdMapCount reports whether b contains, at ANY offset behind the 4-byte packet length, a tars MAP
-// head (type nibble 8, any tag) directly followed by a tag-0 INT (0x02) of 2^20 or more: an announced map
-// size that the packet cannot possibly hold. TarsGo's generated ReadFrom then iterates that many times
-// over optional reads that silently do nothing at the end of the data (about 1 s per 2^25 entries, up to
-// a minute for 2^31-1; no allocation; the call returns, mostly with a frame). Such inputs are not executed:
-// the per-call oracle has no verdict on a call that returns (the statement says "loops forever"), and a
-// few hundred of them would take the check hours (three of them are single-byte corruptions of alphabet
-// frames: 48 s per call). Recorded as observation O1 in findings/C08.md. (A raw scan: it does not matter
-// whether the offset is a TLV boundary; the LIST form - type nibble 9, the sBuffer guard of
-// tars/decoder.go - is NOT excluded.)
+// head (type nibble 8, any tag) directly followed by a tag-0 INT (0x02) of MORE THAN 2^24: on a tree
+// without tars/decoder.go's checkMapLen TarsGo's generated ReadFrom iterates the announced size over
+// optional reads that silently do nothing at the end of the data (~25 ns per announced entry: 2^24 = 0.4 s,
+// 2^31-1 = about a minute; no allocation; the call returns). Sizes up to 2^24 are executed - the cost
+// oracle of run.go (100 ms of thread CPU per call) flags them on a regressed tree at a bounded price -,
+// larger ones are not: each would cost a regressed tree up to three minutes (three executions) without
+// adding a verdict, and a call of about a minute next to the 60 s watchdog is a flaky oracle. See
+// findings/C08.md F5. (A raw scan: it does not matter whether the offset is a TLV boundary; the LIST
+// form - type nibble 9, the sBuffer guard of tars/decoder.go - is NOT excluded.)
 func TarsAbsurdMapCount(b []byte) bool {
 	for i := 4; i+6 <= len(b); i++ {
 		if b[i]&0x0f != 8 {
@@ -489,7 +535,7 @@ func TarsAbsurdMapCount(b []byte) bool {
 		if b[i]>>4 == 15 { // two-byte head
 			j++
 		}
-		if j+5 <= len(b) && b[j] == 0x02 && int32(binary.BigEndian.Uint32(b[j+1:])) >= 1<<20 {
+		if j+5 <= len(b) && b[j] == 0x02 && int32(binary.BigEndian.Uint32(b[j+1:])) > 1<<24 {
 			return true
 		}
 	}
